@@ -10,6 +10,7 @@ EXPLANATION = ("C12 (narrow): req0_pipe_close drains the pipe's contexts and eit
                "timing of resends are not decided."
                " Also: a policy field that exists in both the socket and the context record is read from the socket only by initialisers and option functions (R4).")
 EXPLANATION += ' Round 3: the retry timer is started only with a context on the retry queue (R6).'
+EXPLANATION += " Round 6: the socket's own context is not a source of per-context policy (R4b); a scan that acts on every element visits every element -- the resend scan, the fan-outs (R9)."
 
 
 def rule_r1(ctx):
